@@ -13,6 +13,8 @@ case "$ID" in
   C13|C14) T=synth ;;
   *) exit 0 ;;
 esac
+# raw packets up to 4 KiB; choice strings as long as the proptest ones
+if [ "$T" = parse ]; then MAXLEN=4096; else MAXLEN=1600; fi
 SECS=${VERIF_FUZZ_SECS:-120}
 JOBS=${VERIF_FUZZ_JOBS:-16}
 SEED=${VERIF_SEED:-1}
@@ -27,7 +29,7 @@ LOG="$W/fuzz-$ID.log"
 ( flock 9; cargo +nightly fuzz build --fuzz-dir ../fuzz $T >"$W/fuzz-build-$ID.log" 2>&1 ) 9>"$W/build.lock"
 if [ $? -ne 0 ]; then echo "NOTE property=$ID fuzz target $T did not build (see $W/fuzz-build-$ID.log); fuzz tier skipped"; exit 0; fi
 timeout -k 10 $((SECS + 120)) cargo +nightly fuzz run --fuzz-dir ../fuzz $T "$CORP" "$SEEDS" -- \
-    -max_total_time=$SECS -seed=$SEED -fork=$JOBS -len_control=0 -max_len=4096 -artifact_prefix="$ART/" >"$LOG" 2>&1
+    -max_total_time=$SECS -seed=$SEED -fork=$JOBS -len_control=0 -max_len=$MAXLEN -artifact_prefix="$ART/" >"$LOG" 2>&1
 runs=$(grep -oE "^#[0-9]+: cov" "$LOG" | tail -1 | grep -oE "[0-9]+")
 rc=0; crashes=0; other=0
 for a in "$ART"/crash-* "$ART"/timeout-* "$ART"/oom-* "$ART"/leak-*; do
